@@ -30,6 +30,9 @@ class Ctl(object):
         self.next_con = 0
         self.cons = {}            # id -> wrapper
         self.provider = None
+        self.last_idx = {}
+        self.real_failures = []   # call indexes (positions in the trace) at which the real driver raised by itself
+        self.lock_events = []     # protocol violations seen by the instrumented provider lock
         self.crash_at = None      # os._exit(9) when this call index is reached (C17 real crashes)
         self.crash_kind = 'before'
         self.mutex = threading.Lock()
@@ -95,11 +98,30 @@ def gate(kind, stmt, con, sqlinfo=None):
         try: dbtxn = bool(real.in_transaction) if real is not None else False
         except Exception: dbtxn = False
         c.trace.append([kind, stmt, con.cid if con is not None else newid, not fail, c.lock_state(), dbtxn, tname(), sqlinfo])
+        c.last_idx[tname()] = len(c.trace) - 1
     if c.crash_at is not None and k == c.crash_at and c.crash_kind == 'before':
         os._exit(9)
     if fail:
         raise InjectedFault('injected fault at DB-API call %d (%s %s)' % (k, kind, stmt))
     return k
+
+
+def real_failure():
+    """the real driver call raised by itself (e.g. 'database is locked'): the recorded call did not succeed"""
+    c = CTL
+    if not c.armed: return
+    with c.mutex:
+        i = c.last_idx.get(tname())
+        if i is not None and c.trace[i][3]:
+            c.trace[i][3] = False
+            c.real_failures.append(i)
+
+
+def guarded(fn, *a, **kw):
+    try: return fn(*a, **kw)
+    except Exception:
+        real_failure()
+        raise
 
 
 def after(k):
@@ -114,12 +136,12 @@ class CurWrap(object):
         self.__dict__['real'] = real
     def execute(self, sql, *args):
         k = gate('execute', classify(sql), self.con, sqlinfo(sql, args))
-        r = self.real.execute(sql, *args)
+        r = guarded(self.real.execute, sql, *args)
         after(k)
         return self
     def executemany(self, sql, *args):
         k = gate('executemany', classify(sql), self.con, sqlinfo(sql, [[list(x) for x in args[0]]] if args else []))
-        self.real.executemany(sql, *args)
+        guarded(self.real.executemany, sql, *args)
         after(k)
         return self
     def __iter__(self): return iter(self.real)
@@ -141,7 +163,7 @@ class ConWrap(object):
         return CurWrap(self, self.real.cursor(*a, **kw))
     def execute(self, sql, *args):
         k = gate('execute', classify(sql), self, sqlinfo(sql, args))
-        r = self.real.execute(sql, *args)
+        r = guarded(self.real.execute, sql, *args)
         after(k)
         return CurWrap(self, r)
     def executemany(self, sql, *args):
@@ -151,11 +173,11 @@ class ConWrap(object):
         return CurWrap(self, r)
     def commit(self):
         k = gate('commit', '', self)
-        self.real.commit()
+        guarded(self.real.commit)
         after(k)
     def rollback(self):
         k = gate('rollback', '', self)
-        self.real.rollback()
+        guarded(self.real.rollback)
         after(k)
     def close(self):
         self.__dict__['closes'] += 1          # counted even when the call is made to fail
@@ -229,7 +251,7 @@ def create_file(path, rows=6):
     con.commit(); con.close()
 
 
-def make_db(path, rows=6, prefill=True):
+def make_db(path, rows=6, prefill=True, **bind_kwargs):
     """File DB with entities T (id, v, unique name, composite key (a, b), many-to-many us) and U. Returns (db, T); db.U is the other entity."""
     from pony import orm
     if prefill and not os.path.exists(path):
@@ -248,7 +270,7 @@ def make_db(path, rows=6, prefill=True):
         _table_ = 'U'
         id = orm.PrimaryKey(int, auto=True)
         ts = orm.Set(T)
-    db.bind('sqlite', path, create_db=False)
+    db.bind('sqlite', path, create_db=False, **bind_kwargs)
     db.generate_mapping(create_tables=False, check_tables=False)
     return db, T
 
@@ -360,7 +382,9 @@ def follow_up(db, T, same_thread=True, timeout=10.0):
         def watchdog():
             if not done.wait(timeout):
                 holder['timeout'] = True
-                try: db.provider.transaction_lock.release()
+                try:
+                    db.provider.transaction_lock.quiet = True
+                    db.provider.transaction_lock.release()
                 except Exception: pass
         th = threading.Thread(target=watchdog, daemon=True); th.start()
         work(); done.set(); th.join()
@@ -369,7 +393,9 @@ def follow_up(db, T, same_thread=True, timeout=10.0):
     th = threading.Thread(target=work, daemon=True, name='follow')
     th.start(); th.join(timeout)
     if th.is_alive():
-        try: db.provider.transaction_lock.release()      # unblock it so that the process can end
+        try:
+            db.provider.transaction_lock.quiet = True
+            db.provider.transaction_lock.release()      # unblock it so that the process can end
         except Exception: pass
         th.join(2.0)
         return 'timeout'
@@ -399,8 +425,11 @@ def run_session_case(case, workdir):
     path = os.path.join(workdir, 'c%d.sqlite' % case.get('n', 0))
     if os.path.exists(path): os.remove(path)
     CTL.reset()
-    db, T = make_db(path)
+    reader = case.get('reader')          # a second, plain sqlite3 connection keeps a read transaction open: the session's COMMIT fails for real
+    db, T = make_db(path, **({'timeout': 0.05} if reader else {}))
     CTL.provider = db.provider
+    db.provider.transaction_lock = OwnedLock()
+    db.provider.pre_transaction_lock = OwnedLock()
     start = case.get('start', 'pooled')
     if start in ('none', 'fresh'):
         db.disconnect()
@@ -416,13 +445,21 @@ def run_session_case(case, workdir):
     sessions = [[case['shape'], case['ops']]] + list(case.get('more', []))
 
     def in_thread():
+        rcon = None
+        if reader:
+            rcon = sqlite3.connect(path)
+            rcon.execute('BEGIN'); rcon.execute('select count(*) from T').fetchall()
         CTL.armed = True
         try:
-            for shape, ops in sessions:
+            for si, (shape, ops) in enumerate(sessions):
+                if rcon is not None and reader == 'first' and si == 1:
+                    rcon.rollback(); rcon.close(); rcon = None
                 exc, outcomes = run_body(db, T, shape, ops)
                 out['sessions'].append({'exc': exc, 'outcomes': outcomes, 'lock_after': CTL.lock_state(), 'calls': CTL.n, 'lock_after_op': list(LOCK_AFTER_OP)})
         finally:
             CTL.armed = False
+            if rcon is not None:
+                rcon.rollback(); rcon.close()
         out['after'] = observe_after(db)
         out['pragmas'] = pool_pragmas(db)
         out['hung'] = bool(out['after']['lock'] or not out['after']['db2cache_empty'])
@@ -446,6 +483,7 @@ def run_session_case(case, workdir):
         dead['deadlock'] = True
         while not finished.wait(0.2):
             for lk in (db.provider.transaction_lock, db.provider.pre_transaction_lock):
+                lk.quiet = True
                 try: lk.release()
                 except Exception: pass
     wd = threading.Thread(target=watchdog, daemon=True); wd.start()
@@ -465,6 +503,8 @@ def run_session_case(case, workdir):
             except Exception: pass
         return {'harness_error': 'the session blocked on the provider lock for more than %.0f s (deadlock); trace so far: %r' % (case.get('timeout', 8.0), [t[:4] for t in CTL.trace][-8:]), 'deadlock': True}
     out['trace'] = [t[:6] for t in CTL.trace]
+    out['lock_events'] = list(CTL.lock_events)
+    out['real_failures'] = list(CTL.real_failures)
     out['writes'] = [[i, t[7]] for i, t in enumerate(CTL.trace) if t[0] in ('execute', 'executemany') and t[1] == 'write']
     out['statements'] = {str(cid): w.statements for cid, w in sorted(CTL.cons.items())}
     out['rows_after'] = read_rows(path)
@@ -482,6 +522,28 @@ def run_session_case(case, workdir):
 
 # ---------------------------------------------------------------------------------------------- mode: threads
 
+class OwnedLock(object):
+    """threading.Lock with an owner: records a release of the unlocked lock (threading.Lock raises RuntimeError there) and a
+    release by a thread that is not the one that acquired it (threading.Lock allows it: the holder loses its lock silently)"""
+    def __init__(self):
+        self._l = threading.Lock()
+        self.owner = None
+        self.quiet = False
+    def acquire(self, blocking=True, timeout=-1):
+        ok = self._l.acquire(blocking, timeout)
+        if ok: self.owner = tname()
+        return ok
+    def release(self):
+        if not self.quiet:
+            if not self._l.locked(): CTL.lock_events.append(['release-of-unlocked-lock', tname()])
+            elif self.owner != tname(): CTL.lock_events.append(['release-by-non-owner', tname(), self.owner])
+        self.owner = None
+        self._l.release()
+    def locked(self): return self._l.locked()
+    def __enter__(self): self.acquire(); return self
+    def __exit__(self, *a): self.release()
+
+
 class SchedLock(object):
     """Replacement for provider.transaction_lock / pre_transaction_lock under the deterministic scheduler: a thread that
     finds the lock held registers as a waiter, tells the controller, and sleeps until the controller wakes it (which it
@@ -494,14 +556,21 @@ class SchedLock(object):
         self.abort = False
     def acquire(self, blocking=True, timeout=-1):
         while True:
-            if self._l.acquire(False): return True
+            if self._l.acquire(False):
+                self.owner = tname()
+                return True
             if not blocking: return False
             ev = threading.Event()
             self.waiters.append((tname(), ev))
             self.notify(tname(), self.name)
             ev.wait()
             if self.abort: raise RuntimeError('scheduler aborted while waiting for %s' % self.name)
-    def release(self): self._l.release()
+    def release(self):
+        if not self.abort:
+            if not self._l.locked(): CTL.lock_events.append(['release-of-unlocked-lock', tname(), self.name])
+            elif getattr(self, 'owner', None) != tname(): CTL.lock_events.append(['release-by-non-owner', tname(), getattr(self, 'owner', None), self.name])
+        self.owner = None
+        self._l.release()
     def locked(self): return self._l.locked()
     def __enter__(self): self.acquire(); return self
     def __exit__(self, *a): self.release()
@@ -643,7 +712,7 @@ def run_thread_case(case, workdir):
                 settle()
     finally:
         CTL.armed = False
-    out = {'effective': effective, 'still_blocked': sorted(pending), 'failed': failed[0],
+    out = {'effective': effective, 'still_blocked': sorted(pending), 'failed': failed[0], 'lock_events': list(CTL.lock_events),
            'lock_after': bool(txn_lock.locked()), 'prelock_after': bool(pre_lock.locked())}
     # let everything finish so that the process can end
     for lk in (pre_lock, txn_lock):
@@ -709,7 +778,10 @@ def crash_batch(payload, workdir):
     CTL.reset()
     import gc
     gc.collect(); gc.freeze()          # keep the children from copying the whole heap (copy-on-write) in their first collection
-    for n, case in enumerate(payload['cases']):
+    cases = list(enumerate(payload['cases']))
+    outs = [None] * len(cases)
+    width = int(payload.get('parallel', 6))
+    def start(n, case):
         path = os.path.join(workdir, 'k%d.sqlite' % n)
         for suffix in ('', '-journal', '-wal', '-shm'):
             if os.path.exists(path + suffix): os.remove(path + suffix)
@@ -722,31 +794,38 @@ def crash_batch(payload, workdir):
                 os._exit(0)
             except BaseException:
                 os._exit(7)
-        deadline = time.time() + float(case.get('timeout', 30.0))
-        status = None
-        while time.time() < deadline:
-            wpid, st = os.waitpid(pid, os.WNOHANG)
-            if wpid == pid:
-                status = os.WEXITSTATUS(st) if os.WIFEXITED(st) else -os.WTERMSIG(st)
-                break
-            time.sleep(0.002)
+        return {'n': n, 'pid': pid, 'path': path, 'deadline': time.time() + float(case.get('timeout', 60.0))}
+    def finish(job, status):
+        n, path = job['n'], job['path']
         if status is None:
-            try: os.kill(pid, 9)
-            except OSError: pass
-            os.waitpid(pid, 0)
-            outs.append({'harness_error': 'child did not finish', 'timeout': True})
-            continue
-        try:
-            rows = read_rows(path)
-            links = read_links(path)
-            journal = os.path.exists(path + '-journal')
-        except Exception as e:
-            outs.append({'harness_error': 'cannot read the database after the crash: %s: %s' % (type(e).__name__, e), 'status': status})
-            continue
-        outs.append({'status': status, 'rows': rows, 'links': links, 'hot_journal_seen': journal})
+            outs[n] = {'harness_error': 'child did not finish', 'timeout': True}
+        else:
+            try:
+                outs[n] = {'status': status, 'rows': read_rows(path), 'links': read_links(path), 'hot_journal_seen': os.path.exists(path + '-journal')}
+            except Exception as e:
+                outs[n] = {'harness_error': 'cannot read the database after the crash: %s: %s' % (type(e).__name__, e), 'status': status}
         for suffix in ('', '-journal'):
             try: os.remove(path + suffix)
             except OSError: pass
+    running = []
+    while cases or running:
+        while cases and len(running) < width:
+            n, case = cases.pop(0)
+            running.append(start(n, case))
+        still = []
+        for job in running:
+            wpid, st = os.waitpid(job['pid'], os.WNOHANG)
+            if wpid == job['pid']:
+                finish(job, os.WEXITSTATUS(st) if os.WIFEXITED(st) else -os.WTERMSIG(st))
+            elif time.time() > job['deadline']:
+                try: os.kill(job['pid'], 9)
+                except OSError: pass
+                os.waitpid(job['pid'], 0)
+                finish(job, None)
+            else:
+                still.append(job)
+        running = still
+        if running: time.sleep(0.003)
     return outs
 
 
